@@ -129,6 +129,7 @@ fn q_bytes(q: &Q, src: &RefSource) -> Vec<u8> {
 
 //------------ execution ----------------------------------------------------------
 
+#[allow(dead_code)]
 struct Exec {
     out: Vec<u8>,
     notify_events: u32,
@@ -402,8 +403,20 @@ fn run_case(c: &Case, obs: &mut Obs) -> CheckResult {
             }
         }
     }
-    let header_units: Vec<u64> = reference.reads.iter().filter(|r| r.1 == 8).map(|r| r.0).collect();
-    let partial_header = run.consumed_at_notify.iter().any(|c| header_units.iter().any(|h| *h < *c && *c < *h + 8));
+    // a notification fired while 1..7 octets of a PDU's header had been handed to the
+    // server (judged from the schedule, not from how the server happens to read)
+    let partial_header = {
+        let mut fed = 0usize;
+        let mut hit = false;
+        for ev in &c.sched {
+            match ev {
+                Ev::Chunk(n) => fed = (fed + *n as usize).min(bytes.len()),
+                Ev::Notify => hit |= bounds.iter().any(|(a, _)| *a < fed && fed < *a + 8),
+                Ev::Settle => {}
+            }
+        }
+        hit
+    };
     obs.label_if(partial_header, "notify-while-partial-header");
     obs.label_if(run.notify_events > 0, "has-notify");
     obs.label_if(inside, "split-inside-pdu");
@@ -650,7 +663,7 @@ pub fn property() -> Property {
             "single-threaded scheduler owned by the harness (tokio current_thread); arrival order = generated schedule",
             "behaviour after the first malformed PDU is compared only against the reference schedule",
             "the PayloadSource is constant during a connection",
-            "the shape 'notify-while-partial-header' is recognised from the server's read pattern (8-byte header reads)",
+            "the shape 'notify-while-partial-header' is recognised from the schedule (a Notify event after 1..7 octets of a PDU header were fed)",
         ],
         subs: vec![
             PropSub {
